@@ -1095,9 +1095,11 @@ Structure read_pdb_from_stream(AnyStream& line_reader, const std::string& source
           dbref.accession_code = read_string(line+33, 8);
           dbref.id_code = read_string(line+42, 12);
           dbref.db_begin.num = read_int(line+55, 5);
-          dbref.db_begin.icode = line[60];
+          if (!is_space(line[60]) && line[60] != '\0')
+            dbref.db_begin.icode = line[60];
           dbref.db_end.num = read_int(line+62, 5);
-          dbref.db_end.icode = line[67];
+          if (!is_space(line[67]) && line[67] != '\0')
+            dbref.db_end.icode = line[67];
         } else {  // line[5] == '1'
           dbref.id_code = read_string(line+47, 20);
         }
